@@ -9,6 +9,11 @@ the table a property states. No code of the analysed crates is run; this is cons
 from .facts import op_place, op_const
 
 
+import re
+
+_LOGGING = re.compile(r"^<?tracing(_core)?::|^<?log::")
+
+
 class Unsupported(Exception):
     pass
 
@@ -282,6 +287,10 @@ class Interp:
         for rx, h in self.handlers:
             if rx.search(name) or rx.search(f["fn"]):
                 return h(self, name, args)
+        # log statements are not part of a function's decision: the `tracing` macros guard their body with level /
+        # callsite tests; evaluating those tests to "disabled" skips the body
+        if _LOGGING.search(name) or _LOGGING.search(f["fn"]):
+            return False
         target = self.F.bodies.get(name)
         if target is not None and depth < self.max_depth:
             return self.run(target, args, depth + 1)
